@@ -229,7 +229,8 @@ class Doist(tyming.Tymist):
             self.enter(temp=temp)  # runs enter context on each doer
 
             tymer = tyming.Tymer(tymth=self.tymen(), duration=self.limit)
-            self.timer.start(duration=self.tock)  # pace with the current tock
+            # pace with the current tock from the latest retrograde adjusted time
+            self.timer.start(duration=self.tock, start=self.timer.latest)
 
             while True:  # until doers complete or exception or keyboardInterrupt
                 try:
